@@ -24,6 +24,13 @@ func dumpRef(which string, max int) {
 			}
 		}
 		cmp = ref.DebianCompare
+	case "pypi":
+		for _, s := range gen.Uniq(dumpPypiCandidates()) {
+			if ref.Pep440Valid(s) {
+				strs = append(strs, s)
+			}
+		}
+		cmp = ref.Pep440Compare
 	case "semver":
 		for _, s := range gen.Uniq(dumpSemverCandidates()) {
 			if _, _, ok := ref.SemverParts(s); ok {
@@ -50,6 +57,8 @@ func dumpRef(which string, max int) {
 		}
 	}
 }
+
+var dumpPypiCandidates func() []string
 
 func dumpSemverCandidates() []string {
 	ids := []string{"0", "1", "2", "10", "99999999999999999", "a", "alpha", "beta", "rc", "A", "a-b", "-5", "-", "x-", "0a", "00a", "x"}
